@@ -37,7 +37,7 @@ Fixpoint sels_strictM (fuel : nat) (C : cfg) (S : schema) (frs : list fragdef) (
   match fuel with
   | O => false
   | Datatypes.S g =>
-      match flattenM g S frs tn tn sels with
+      match flattenM g S frs tn tn false sels with
       | Some (fns, ms) =>
           forallb (fun f =>
             field_strict C S nested tn f &&
@@ -60,16 +60,16 @@ Definition mixin_strict (g : nat) (C : cfg) (S : schema) (frs : list fragdef) (t
   end.
 
 Lemma sels_strictM_inv gs C S frs nested tn sels g fns ms :
-  sels_strictM gs C S frs nested tn sels = true -> flattenM g S frs tn tn sels = Some (fns, ms) ->
+  sels_strictM gs C S frs nested tn sels = true -> flattenM g S frs tn tn false sels = Some (fns, ms) ->
   exists gs', gs = Datatypes.S gs' /\
     forallb (fun f => field_strict C S nested tn f &&
                       sub_strict S (sels_strictM gs' C S frs true) tn f) fns = true /\
     forallb (mixin_strict gs' C S frs tn) ms = true.
 Proof.
   destruct gs as [|gs']; [discriminate|]. cbn [sels_strictM]. intros H Hfl.
-  destruct (flattenM gs' S frs tn tn sels) as [[fns2 ms2]|] eqn:E; [| discriminate H].
-  destruct (flattenM_both_ex S frs tn _ _ _ _ _ E (max g gs') (Nat.le_max_r _ _)) as [R1 _].
-  destruct (flattenM_both_ex S frs tn _ _ _ _ _ Hfl (max g gs') (Nat.le_max_l _ _)) as [R2 _].
+  destruct (flattenM gs' S frs tn tn false sels) as [[fns2 ms2]|] eqn:E; [| discriminate H].
+  destruct (flattenM_both_ex S frs tn _ _ _ _ _ _ E (max g gs') (Nat.le_max_r _ _)) as [R1 _].
+  destruct (flattenM_both_ex S frs tn _ _ _ _ _ _ Hfl (max g gs') (Nat.le_max_l _ _)) as [R2 _].
   rewrite R1 in R2. inversion R2; subst fns2 ms2.
   apply andb_true_iff in H as [H1 H2]. exists gs'. split; [reflexivity|]. split; [exact H1 | exact H2].
 Qed.
@@ -203,7 +203,7 @@ Section MixS.
     destruct (level_invM _ _ _ _ _ _ _ _ _ _ _ _ _ _ _ _ Hp Hfl Hat)
       as [f2 [pfl [extra [kept [Ef [Hrun [Hkept [Hrem Hout]]]]]]]].
     destruct Hamb as [HkN HpyN].
-    destruct (flattenM_collect_mix _ _ _ _ _ _ _ _ _ _ Hfl Hcol) as [Hown Hmixn].
+    destruct (flattenM_collect_mix _ _ _ _ _ _ _ _ _ _ _ Hfl Hcol) as [Hown Hmixn].
     assert (Hc0 : In {| c_name := cn; c_bases := class_bases ms kept []; c_fields := pfl |} out)
       by (rewrite Hout; left; reflexivity).
     destruct (Htab _ Hc0) as [Hl Hnb]. simpl in Hl, Hnb.
@@ -311,7 +311,7 @@ Section MixS.
       - rewrite B1. change (field_key fb0) with (n_key (node_of_fnode false fb0)). apply in_map, Hfb0.
       - rewrite <- A1, En, B2, B1. reflexivity. }
     pose proof (fields_run_pf _ _ _ _ _ _ _ _ _ _ _ _ _ _ Hrun) as FP.
-    intros x Hx. destruct (flattenM_collect_conv _ _ _ _ _ _ _ _ _ _ Hfl Hcol x Hx)
+    intros x Hx. destruct (flattenM_collect_conv _ _ _ _ _ _ _ _ _ _ _ Hfl Hcol x Hx)
       as [[fn [Hfn Ex]] | [m [fm [km [lm [Hm [Elf [Hcm Hxm]]]]]]]].
     - destruct (Forall2_In_l _ _ _ _ FP Hfn) as [pf [Hpf [ctx Hfp]]].
       destruct (field_pf_inv _ _ _ _ _ _ _ _ _ _ Hfp) as [t [a0 [il [_ [_ Epf]]]]].
